@@ -732,7 +732,8 @@ class Fingerprint(str):
 class SorteDeque(collections.deque):
     """A deque subclass that tries to maintain sorted ordering using bisect"""
     def insort(self, item):
-        i = bisect.bisect_left(self, item)
+        # after any items that compare equal: equal keys keep their insertion order (a stable sort)
+        i = bisect.bisect_right(self, item)
         self.rotate(- i)
         self.appendleft(item)
         self.rotate(i)
